@@ -2,7 +2,8 @@
 
 P: every _process_* template (fixed arity by direct SMT; and/nand/or/nor for every arity by loop
    invariant; xor/nxor for arities 2..5 — their sign-pattern enumeration has no inductive invariant in pyvc), the dispatch of tseytin_transformation on
-   one-gate circuits of every type, literal allocation on those circuits.
+   one-gate circuits of every type, literal allocation on those circuits; tseytin_transformation on an ARBITRARY well-formed circuit and output
+   selection (c05_rec.py: invariants of both loops, contract of the memoised recursion process_gate verified per gate type/arity).
 B: brute-force CNF-vs-evaluation on enumerated circuits (vlib/bounded/C05.py)."""
 import itertools
 import z3
@@ -212,7 +213,11 @@ def run(rep):
     for a in STD_ASSUME:
         rep.assume(a)
     rep.assume('SAT solvers are sound and complete (real python-sat is absent; the z3-backed shim is used by the bounded layer)')
-    rep.assume('process_gate recursion over arbitrary circuits (memoised DFS) is covered by the bounded layer only; P covers templates, dispatch and allocation on one-gate circuits')
+    rep.assume('tseytin_transformation on an arbitrary circuit is proved for gate arities under contract (fixed-arity types, n-ary types with 2 or 3 operands, constants without operands): '
+               'loops by invariants, the memoised recursion process_gate by its contract (recursive calls use the contract: partial correctness of recursive procedures); the last step from '
+               '"sat <=> every encoded gate obeys its equation and the selected outputs are true, literals injective, inputs = variables 1..n" to the statement about evaluation is rule R2 (DAG induction); '
+               'n-ary gates with more than 3 operands and constants carrying operands inside whole circuits are covered by the templates (all arities) and the bounded layer only')
+    rep.trusted_base.append('proof rule for recursive procedures: a body verified against its contract, with recursive calls replaced by the contract, satisfies the contract (partial correctness)')
     it = new_interp()
     pv = Prover(rep, it, 'C05')
     for t in S.GATE_TYPES:
@@ -227,6 +232,15 @@ def run(rep):
         if t in ('XOR', 'NXOR'):
             for ar in (4, 5):          # the parity templates enumerate sign patterns: proved per arity (2..5), not for all n
                 pv.run_contract(TemplateFixed(t, ar))
+    # the whole transformation on an arbitrary circuit: loops by invariants, process_gate by its contract (c05_rec.py)
+    from .c05_rec import TseytinAny, INSTANCES
+    for c in [TseytinAny('loops'), TseytinAny('loops', True), TseytinAny('saved')] + [TseytinAny(m) for m in INSTANCES]:
+        it.loop_specs.clear()
+        it.contracts.clear()
+        pv.run_contract(c)
+    it.loop_specs.clear()
+    it.contracts.clear()
+    it.symbolic_range_lists = False
     p, q, r = z3.Bools('p q r')
     canary(rep, pv, 'C05/canary/gt-clauses-are-lt', [], z3.And(z3.Or(p, z3.Not(r)), z3.Or(z3.Not(q), z3.Not(r)), z3.Or(z3.Not(p), q, r)) == (r == theory.OPz('LT', [p, q])))
     refuted = pv.discharge(env.NPROC)
@@ -234,5 +248,5 @@ def run(rep):
     from .common import run_bounded
     run_bounded(rep, 'C05', quick)
     rep.extra['explanation'] = ('Template equivalences are proved from the real source for all literals (and all arities for and/nand/or/nor); the '
-                                'whole-circuit theorem additionally needs the process_gate recursion, which is exercised by the bounded layer '
-                                '(brute force over all valuations of the generated CNF on enumerated circuits).')
+                                'whole transformation is proved on an arbitrary circuit (gate arities under contract) by loop invariants and the contract of the '
+                                'memoised recursion; the bounded layer brute-forces all valuations of the generated CNF on enumerated circuits.')
